@@ -37,6 +37,8 @@ for _side in ("Stats1.", "Stats2."):
     for _c in ("MatchesEqualTally", "HistogramByLengthAndErrors", "AdjacentBases", "OnReverseComplementCount",
                "AllowedErrorsAreFloorOfLTimesRate"):
         CLAUSES["C20"][_side + _c] = _c + ("(R2)" if _side == "Stats2." else "")
+for _c in ("QualityTrimmedIsSumOverReads", "PolyATrimmedIsSumOverReads", "WithAdaptersIsCountOverReads"):
+    CLAUSES["C04"]["Report." + _c] = "Report" + _c
 for _c in ("InputCount", "Conservation", "WrittenCount", "WrittenMatchesFiles", "WrittenBasePairs", "InputBasePairs",
            "WithAdapters", "QualityTrimmed", "PolyATrimmed", "TextFateEqualsJson", "MinimalEqualsJson"):      # (the reverse-complemented count is C16's)
     CLAUSES["C04"]["Report." + _c] = "Report" + _c
@@ -62,7 +64,8 @@ CRASH_OWNERS = {
     "steps.py": {"C04", "C05", "C11", "C15", "C17"}, "report.py": {"C04", "C20"}, "statistics.py": {"C04", "C20"},
     "predicates.py": {"C11"}, "pipeline.py": {"C10", "C04"}, "info.pyx": {"C17"},
 }
-OBSERVATION_ONLY = {"Occ.AtMostOnce", "Stages.DocumentedOrder", "Struct1", "Struct2", "PairSync", "Report.InputCount", "Report.Conservation", "Report.WrittenMatchesFiles",
+OBSERVATION_ONLY = {"Report.QualityTrimmedIsSumOverReads", "Report.PolyATrimmedIsSumOverReads", "Report.WithAdaptersIsCountOverReads",
+                    "Occ.AtMostOnce", "Stages.DocumentedOrder", "Struct1", "Struct2", "PairSync", "Report.InputCount", "Report.Conservation", "Report.WrittenMatchesFiles",
                     "Report.InputBasePairs", "Report.TextFateEqualsJson", "Report.MinimalEqualsJson",
                     "Demux.FileForEveryName", "Demux.MultisetEqualsPlainRun", "Info.RowForEveryInputRead",
                     "Info.MiddleIsCoordinates", "Info.QualitiesSplitAlike"}
